@@ -155,6 +155,36 @@ def range_rule(ctx, r, F):
         ([(zero, False), (big, False)], some(call(RI, binop("Add", C(1), idx(TOP, ("bin", "Sub", lv, C(1)))), idx(TOP, lv)))),
     ])
     got = sorted(repr(x) for x in cmpmodel.decision(b))
-    ctx.ob(r, ("LengthEncoding::range", "shape"), got == want,
-           "range() does not have the reference shape (0 -> 0..=T[0]; v>=170 -> None; else T[v-1]+1..=T[v]): %s" % [
-               ([(sym.fmt(c), t) for c, t in cs], sym.fmt(ret)) for cs, ret in cmpmodel.decision(b)], cfg=F.key, where=b.where())
+    why = None
+    if got != want:
+        # any other spelling: decide range() on all 256 codes
+        why = _range_semantics(F, b)
+    ctx.ob(r, ("LengthEncoding::range", "shape"), why is None,
+           "range() is not (0 -> 0..=T[0]; v>=170 -> None; else T[v-1]+1..=T[v]) on all 256 codes: %s" % why, cfg=F.key, where=b.where())
+
+
+def _range_semantics(F, b):
+    from .. import evalx
+    evalx.set_target(F)
+    T = F.const_array("length::TOP_VALUE_BY_ENCODING", 4)
+    if not T:
+        return "length table not found"
+    tabs = lambda path: T if path == "length::TOP_VALUE_BY_ENCODING" else None
+    S = sym.Sym(b)
+    paths = S.paths()
+    for v in range(256):
+        asg = {"symbolic": True, "params": {1: ("obj", "self")}, "fields": {("fld", ("obj", "self"), 0): v}}
+        try:
+            got = evalx.run(S, F, paths, asg, tabs)
+        except evalx.Panics as ex:
+            got = "panic (%s)" % ex
+        except evalx.Unknown as ex:
+            return "cannot evaluate: %s" % ex
+        if v >= len(T):
+            want = [("None",)]
+        else:
+            lo, hi = (0 if v == 0 else T[v - 1] + 1), T[v]
+            want = [("Some", ("app", "core::ops::RangeInclusive::<Idx>::new", (lo, hi))), ("Some", ("adt", "core::ops::RangeInclusive", lo, hi, 0))]
+        if got not in want:
+            return "range() of code %d is %s; reference %s" % (v, got, want[0])
+    return None
